@@ -33,6 +33,14 @@ def generate(rng, tier):
                 if d["X"] is not None and "Offset" in d["X"]:
                     d["X"]["Offset"] = rng.choice([0.0, 0.01])
             ds.append(SL.finish_dataset(d, cfg["mat"]))
+        if i % 7 == 1 and ds:
+            # one empty / zero-count bin: a NaN (or infinite) S(Q) sample spoils the merged value at its own Q only
+            d = ds[rng.randrange(len(ds))]
+            j = rng.randrange(len(d["x"]))
+            d["s_true"] = list(d["s_true"])
+            d["s_true"][j] = float("nan") if (i // 7) % 2 == 0 else float("inf")
+            SL.finish_dataset(d, cfg["mat"])
+            d["nonfinite_sample"] = True
         if i % 7 == 5:
             # raw abscissae a hair off the 0.01 grid and a per-dataset window edge exactly on the grid value of one of them; no Q offsets
             for d in ds:
@@ -124,6 +132,8 @@ def oracle(pystog, case, res):
         return "merged grid is not the set of 0.01-resolution input Q values (differs at %r)" % (sorted(set(keys.tolist()) ^ set(q.tolist()))[:2],)
     for qq, v in zip(q, sq):
         ys = y[keys == qq]
+        if not np.isfinite(ys).all():      # a non-finite contribution spoils its own Q only (stored as 0 or infinity there)
+            continue
         mean = ys.mean()
         if qq > 0 and abs(v - mean) > 1e-9 * (1 + np.abs(ys).max()):
             return "merged value %r at Q=%r is not the mean %r of its %d contributions" % (float(v), float(qq), float(mean), len(ys))
@@ -165,6 +175,6 @@ def oracle(pystog, case, res):
     a = merged(st)
     st.merge_data()
     b = merged(st)
-    if not all(np.array_equal(u, v) for u, v in zip(a, b)):
+    if not all(np.array_equal(u, v, equal_nan=True) for u, v in zip(a, b)):
         return "a second merge_data without new data changed the result"
     return None
